@@ -28,6 +28,12 @@ def time_grid(rng, tier, kind=None):
         step = int(kind[5:])
         n = int(rng.integers(3, nmax + 1))
         return [1990 + step * i for i in range(n)], "constant"
+    if kind == "long":
+        n = int(rng.integers(100, 251))
+        if rng.random() < 0.5:
+            return [1850 + i for i in range(n)], "unit"
+        steps = rng.choice([1, 1, 1, 2, 5], size=n - 1)
+        return [int(x) for x in (1800 + np.concatenate(([0], np.cumsum(steps))))], "uneven"
     if kind == "deceptive":
         # uneven, but its end points look like an even grid: last - first == first step * (n - 1)
         n = int(rng.integers(4, nmax + 1))
@@ -52,7 +58,11 @@ def time_grid(rng, tier, kind=None):
 
 
 def make_config(fd, rng, tier, model=None, grid_kind=None, solvable=False, n_extra=None):
+    if grid_kind is None and rng.random() < 0.02:
+        grid_kind = "long"  # a few long series (100-250 steps): size-dependent paths, accumulated rounding
     items, gclass = time_grid(rng, tier, grid_kind)
+    if len(items) > 60:
+        n_extra = 0 if n_extra is None else min(n_extra, 1)
     tl = "t" if rng.random() < 0.8 else "y"
     tdim = fd.Dimension(letter=tl, name="time" if tl == "t" else "year", items=list(items))
     n_extra = int(rng.integers(0, 3)) if n_extra is None else n_extra
@@ -65,7 +75,7 @@ def make_config(fd, rng, tier, model=None, grid_kind=None, solvable=False, n_ext
     pnames = S.SURVIVAL[model][0]
     shape = tuple(dims.shape)
     cfg = dict(items=items, gclass=gclass, tl=tl, dims=dims, extra=extra_letters, model=model, shape=shape, U=U, tdim=tdim,
-               inflow_at=str(rng.choice(["start", "middle", "end"])), n_pts=int(rng.choice([1, 1, 1, 2, 3, 4, 5, 6, 7, 8, 9, 10])))
+               inflow_at=str(rng.choice(["start", "middle", "end"])), n_pts=int(rng.choice([1, 1, 1, 2, 3, 4, 5, 6, 7, 8, 9, 10])) if len(items) <= 60 else int(rng.choice([1, 2])))
     # ground-truth parameter values per (cohort, labels)
     lo = max(0.6 * float(dtv.min()), 0.3) if solvable else 0.3 * float(dtv.min())
     truth, given = {}, {}
